@@ -62,23 +62,23 @@ static double val_or_inf(bool upper)
 static double user_obj(const LP& lp, double maxobj) { return lp.spxSense() == SPxLPBase<double>::MINIMIZE ? -maxobj : maxobj; }
 
 // the whole unscaled view of the scaled LP (through the scaler's scalar getters) equals the dense reference;
-// both matrix copies hold the same numbers
-static void assert_view(const LP& lp, const Sc& sc, const Dense<NR, NC>& d, int id)
+// both matrix copies hold the same numbers   (assertion ids 21..27; ids must be literals)
+static void assert_view(const LP& lp, const Sc& sc, const Dense<NR, NC>& d)
 {
    for(int j = 0; j < NC; ++j)
    {
-      vp_assert(same_bits(sc.lowerUnscaled(lp, j), d.lo[j]), id);
-      vp_assert(same_bits(sc.upperUnscaled(lp, j), d.up[j]), id + 1);
-      vp_assert(user_obj(lp, sc.maxObjUnscaled(lp, j)) == d.obj[j], id + 2);
+      vp_assert(same_bits(sc.lowerUnscaled(lp, j), d.lo[j]), 21);
+      vp_assert(same_bits(sc.upperUnscaled(lp, j), d.up[j]), 22);
+      vp_assert(user_obj(lp, sc.maxObjUnscaled(lp, j)) == d.obj[j], 23);
    }
    for(int i = 0; i < NR; ++i)
    {
-      vp_assert(same_bits(sc.lhsUnscaled(lp, i), d.lhs[i]), id + 3);
-      vp_assert(same_bits(sc.rhsUnscaled(lp, i), d.rhs[i]), id + 4);
+      vp_assert(same_bits(sc.lhsUnscaled(lp, i), d.lhs[i]), 24);
+      vp_assert(same_bits(sc.rhsUnscaled(lp, i), d.rhs[i]), 25);
       for(int j = 0; j < NC; ++j)
       {
-         vp_assert(sc.getCoefUnscaled(lp, i, j) == d.a[i][j], id + 5);
-         vp_assert(same_bits(rowcoef(lp, i, j), colcoef(lp, i, j)), id + 6);
+         vp_assert(sc.getCoefUnscaled(lp, i, j) == d.a[i][j], 26);
+         vp_assert(same_bits(rowcoef(lp, i, j), colcoef(lp, i, j)), 27);
       }
    }
 }
@@ -145,7 +145,7 @@ extern "C" void h_c09_change_scalar()
    lp.changeObj(j5, v5, true);                d.obj[j5] = v5;
    int j6 = vp_int_in(0, NC - 1); double v6 = fin_val(false);
    lp.changeMaxObj(j6, v6, true);             d.obj[j6] = user_obj(lp, v6);
-   assert_view(lp, sc, d, 1);
+   assert_view(lp, sc, d);
    vp_assert(lp.isScaled(), 10);
    for(int j = 0; j < NC; ++j) vp_assert(lp.cexp()[j] == ce[j], 11);
    for(int i = 0; i < NR; ++i) vp_assert(lp.rexp()[i] == re[i], 12);
@@ -162,7 +162,7 @@ extern "C" void h_c09_change_element()
    vp_assume(HAS(i7, j7));
    double v7 = fin_val(true);
    lp.changeElement(i7, j7, v7, true);        d.a[i7][j7] = v7;
-   assert_view(lp, sc, d, 1);
+   assert_view(lp, sc, d);
    vp_assert(lp.isScaled(), 10);
    for(int i = 0; i < NR; ++i)
    {
@@ -206,7 +206,7 @@ static void change_vectors(bool allow_inf)
          lp.changeMaxObj(ob, true);
          for(int j = 0; j < NC; ++j) d.obj[j] = user_obj(lp, d.obj[j]);
       }
-      assert_view(lp, sc, d, 1);
+      assert_view(lp, sc, d);
    }
    else
    {
